@@ -115,20 +115,31 @@ func (this *Allocator) getPartitionsNodeIds(partitionCount uint, replicationFact
 }
 
 func (this *Allocator) run() {
+	// Replica-set changes wait for the catalogue to apply them, and the
+	// catalogue's apply hands partitions over through watch/unwatch: the two
+	// are served by separate goroutines so that neither waits for the other.
 	nodeChanges := this.clusterConn.NodeChangesNotifications()
+	go func() {
+		for {
+			select {
+			case change := <-nodeChanges:
+				if change == nil {
+					continue
+				}
+				switch change.Type {
+				case cluster.NodesChangeAddNode:
+					this.addNodeToPartitions(change.NodeId)
+				case cluster.NodesChangeRemoveNode:
+					this.removeNodeFromPartitions(change.NodeId)
+				}
+			case <-this.ctx.Done():
+				return
+			}
+		}
+	}()
 
 	for {
 		select {
-		case change := <-nodeChanges:
-			if change == nil {
-				continue
-			}
-			switch change.Type {
-			case cluster.NodesChangeAddNode:
-				this.addNodeToPartitions(change.NodeId)
-			case cluster.NodesChangeRemoveNode:
-				this.removeNodeFromPartitions(change.NodeId)
-			}
 		case update := <-this.updatesC:
 			if update == nil {
 				continue
@@ -183,11 +194,21 @@ func (this *Allocator) canModifyPartition(partition *partition) bool {
 	return this.clusterConn.Id() == this.clusterConn.NodeIds()[0]
 }
 
-func (this *Allocator) addNodeToPartitions(nodeId uint64) {
+// Copy: proposals below wait for the catalogue, whose apply takes
+// partitionsMu in watch/unwatch.
+func (this *Allocator) watchedPartitions() []*partition {
 	this.partitionsMu.RLock()
 	defer this.partitionsMu.RUnlock()
 
+	partitions := make([]*partition, 0, len(this.partitions))
 	for _, partition := range this.partitions {
+		partitions = append(partitions, partition)
+	}
+	return partitions
+}
+
+func (this *Allocator) addNodeToPartitions(nodeId uint64) {
+	for _, partition := range this.watchedPartitions() {
 		if this.canModifyPartition(partition) && partition.isUnderReplicated() {
 			partition.proposeAddNode(this.ctx, nodeId)
 		}
@@ -195,10 +216,7 @@ func (this *Allocator) addNodeToPartitions(nodeId uint64) {
 }
 
 func (this *Allocator) removeNodeFromPartitions(nodeId uint64) {
-	this.partitionsMu.RLock()
-	defer this.partitionsMu.RUnlock()
-
-	for _, partition := range this.partitions {
+	for _, partition := range this.watchedPartitions() {
 		if this.canModifyPartition(partition) {
 			partition.proposeRemoveNode(this.ctx, nodeId)
 		}
